@@ -96,6 +96,7 @@ class Unit:
         self.header_lines = []
         self.meta = {}
         self.tail = None
+        self.opts = []
 
 
 def parse_args(s):
@@ -178,7 +179,7 @@ class Generator:
                 if not c2:
                     raise GenError(f'lost-anchor: upto-stmt "{rest[1]}" after "{u.sel[0]}" in {u.fnpath}')
                 span = [st['span'][0], c2[0]['span'][0]]
-                if any(inside(r, span) for r in fn['returns'] + fn['tries']):
+                if any(inside(r, span) for r in fn['returns'] + fn['tries']) and not (st['depth'] == 1 and 'same-return-type' in u.opts):
                     raise GenError(f'unsupported: bounded stmts fragment of {u.fnpath} contains return/?')
             # include a trailing `;` that syn leaves outside a `let` stmt span? (syn includes it) – nothing to do
             wrap = True
@@ -460,6 +461,8 @@ class Generator:
                             cur.params_drop.append(a)
                         else:
                             cur.params_add.append(a)
+                elif d == 'opt':
+                    cur.opts += args[1:]
                 elif d == 'tail':
                     cur.tail = st[4:].strip()[len('tail'):].strip()
                 elif d == 'rewrite':
@@ -514,7 +517,7 @@ class Generator:
         fn = find_fn(idx, u.relfile, u.fnpath)
         src = idx['src']
         sig = src[fn['sig_start']:fn['body'][0]].decode()
-        if fn['ret']:
+        if fn['ret'] and retname != '-':
             rs, re_ = fn['ret']
             a = src[fn['sig_start']:rs].decode()
             t = src[rs:re_].decode()
